@@ -794,8 +794,8 @@ impl Ctx {
     /// Run `run_prop` on `shards` parallel shards (rayon), `cases` in total.
     ///
     /// A watchdog thread observes the case in flight on every shard: a single case that does
-    /// not return within `YQV_CASE_LIMIT` seconds (default 120; cases of the arithmetic
-    /// properties cost micro- to milliseconds) is reported as a violation of class
+    /// not return within `YQV_CASE_LIMIT` seconds of *observed* run time (default 300 quick / 3600 thorough; cases
+    /// of the arithmetic properties cost micro- to milliseconds) is reported as a violation of class
     /// `<check>|nonterminating` with that case as replay, the evidence is written and the
     /// process exits (the stuck thread cannot be stopped).  DESIGN.md 0.4.
     pub fn par_prop<S, G, F>(&self, check: &str, shards: u64, cases: u64, mk: G, f: F)
@@ -807,25 +807,50 @@ impl Ctx {
     {
         use rayon::prelude::*;
         let per = (cases + shards - 1) / shards;
-        let limit: f64 = std::env::var("YQV_CASE_LIMIT").ok().and_then(|s| s.parse().ok()).unwrap_or(120.0);
-        let slots: Vec<Mutex<Option<(Instant, S::Value)>>> = (0..shards).map(|_| Mutex::new(None)).collect();
+        // quick cases cost micro- to milliseconds (seconds for the heaviest consumers under load); thorough tiers
+        // contain cases that legitimately run for minutes (50 Lanczos runs on a 14000-row matrix)
+        let limit: f64 = std::env::var("YQV_CASE_LIMIT")
+            .ok()
+            .and_then(|s| s.parse().ok())
+            .unwrap_or(if self.quick() { 300.0 } else { 3600.0 });
+        // slot = (generation, case): the generation changes with every case
+        let slots: Vec<Mutex<Option<(u64, S::Value)>>> = (0..shards).map(|_| Mutex::new(None)).collect();
         let finished = std::sync::atomic::AtomicBool::new(false);
         std::thread::scope(|sc| {
             sc.spawn(|| {
+                // The monitor counts its OWN polls during which it saw the same case in flight, instead of
+                // comparing clock readings: a pause of the whole process or machine (snapshot, SIGSTOP) stops
+                // the monitor as well and is not mistaken for a stuck case.
+                const POLL_S: f64 = 0.25;
+                let mut seen: Vec<(u64, u64)> = vec![(0, 0); slots.len()]; // (generation, polls)
                 while !finished.load(std::sync::atomic::Ordering::Relaxed) {
-                    std::thread::sleep(std::time::Duration::from_millis(250));
-                    for slot in &slots {
+                    std::thread::sleep(std::time::Duration::from_millis((POLL_S * 1000.0) as u64));
+                    for (k, slot) in slots.iter().enumerate() {
                         let stuck = {
                             let g = slot.lock().unwrap();
                             match &*g {
-                                Some((t0, v)) if t0.elapsed().as_secs_f64() > limit => Some(v.clone()),
-                                _ => None,
+                                Some((gen, v)) => {
+                                    if seen[k].0 == *gen {
+                                        seen[k].1 += 1;
+                                    } else {
+                                        seen[k] = (*gen, 1);
+                                    }
+                                    if seen[k].1 as f64 * POLL_S > limit {
+                                        Some(v.clone())
+                                    } else {
+                                        None
+                                    }
+                                }
+                                None => {
+                                    seen[k] = (0, 0);
+                                    None
+                                }
                             }
                         };
                         if let Some(v) = stuck {
                             let fl = Fail::new(
                                 format!("{}|nonterminating", check),
-                                format!("a single case did not return within {} s (normal cost: micro- to milliseconds)", limit),
+                                format!("a single case did not return within {} s of observed run time (normal cost: micro- to milliseconds)", limit),
                             );
                             self.violation(check, &fl, serde_json::to_value(&v).unwrap_or(Value::Null));
                             let code = self.finish();
@@ -838,8 +863,10 @@ impl Ctx {
                 let mut l = Local::new();
                 let strat = mk();
                 let slot = &slots[sh as usize];
+                let counter = std::cell::Cell::new(0u64);
                 self.run_prop(check, sh, per, &strat, &mut l, |v, l| {
-                    *slot.lock().unwrap() = Some((Instant::now(), v.clone()));
+                    counter.set(counter.get() + 1);
+                    *slot.lock().unwrap() = Some(((sh << 40) | counter.get(), v.clone()));
                     let r = f(v, l);
                     *slot.lock().unwrap() = None;
                     r
